@@ -56,6 +56,12 @@ def check_trace(res, tr, tr2):
             res.ev("diag_unhandled_failure_" + u[0])
     if tr.close_raised:
         res.violate("close-raised", "close() raised %s" % tr.close_raised)
+    for rid in getattr(tr, "pending_after_heal", ()):
+        rec = tr.reqs[rid]
+        res.violate("never-completed/server-healthy-for-60s", "the request was neither cancelled nor answered with a "
+                    "failure, the server answered everything and accepted every connection for 60 s, yet the request "
+                    "was still pending (written %d time(s)) until close() failed it" % len(rec.get("writes", ())),
+                    rid=rid, cancelled=rec["cancelled"])
     for rid, rec in tr.reqs.items():
         if rec["d"] is None:
             if rec.get("raised"):
